@@ -6,8 +6,9 @@ The model (`Model/JplR.lean`) contains, besides `create_frames` / `get_orbit` / 
 
 * `propagate` for a propagator built by hand for the two ends of a segment (`JplPropagator(obj, frame)`): the sign
   that reverses a segment acts on position AND velocity;
-* `Att`, `stepOffsetA`, `centerToA`, `reframeA`: frames made from orbits (`Orbit.as_frame` / `orbit2frame`), the new
-  centre hanging below the centre of the frame the orbit is expressed in;
+* `Att`, `attOffset`, `stepOffsetD`, `centerToA`, `reframeA`: frames made from orbits (`Orbit.as_frame` /
+  `orbit2frame`), the new centre hanging below the centre of the frame the orbit is expressed in, its offset being the
+  propagated state expressed in that frame (`Center.offset_frame`, commit 261fb0a);
 * `World`, `Op`, `step`, `run`: the caller's objects, modified in place, and requests repeated — the code keeps
   no memory between requests, so neither does the model.
 
@@ -20,7 +21,9 @@ Theorems:
 * `spk_attached_frames` — conversions between any two frames, kernel bodies or frames made from orbits, add the
   difference of the positions of their centres.
 * `spk_as_frame` — the frame made from the orbit of a body (as seen from either end of its segment, i.e. from a
-  centre that is not the Earth) is centred on that body: conversions from and to it chain the segments.
+  centre that is not the Earth; whatever frame the orbit had been re-framed to before) is centred on that body:
+  conversions from and to it chain the segments.  `attach_potential_all`: the convention `AttPos` (the new centre is
+  given the position of the orbit's body) can always be met.
 * `history_independent` — the answer to a request is a function of the kernel and the segment values at the date of
   the request only: it is the same in every world (whatever objects the caller holds and however he modified them,
   whatever frames he attached).
@@ -57,24 +60,18 @@ theorem spk_propagator_either_direction (ps : Pairs) (seg : Nat → Nat → V6) 
 /-- **Frames made from orbits**: between any two frames — kernel bodies or attached ones — a conversion adds the
 difference of the positions of the two centres. -/
 theorem spk_attached_frames (ps : Pairs) (att : List Att) (seg : Nat → Nat → V6) (P : Nat → V6)
-    (hP : Consistent ps seg P) (hu : UniqueCenter ps) (hA : AttOK ps att P) (fuel a b : Nat) (x v : V6)
+    (hP : Consistent ps seg P) (hu : UniqueCenter ps) (hA : AttPos att P) (fuel a b : Nat) (x v : V6)
     (h : reframeA fuel ps att seg a b x = .ok v) : v = x + si (P a - P b) :=
   reframeA_ok hP hu hA h
 
 /-- a name that no segment of the kernel mentions -/
 def Fresh (ps : Pairs) (x : Nat) : Prop := ∀ p ∈ ps, p.1 ≠ x ∧ p.2 ≠ x
 
-theorem fresh_ne_of_linked {ps : Pairs} {x o c : Nat} (hx : Fresh ps x) (h : Linked ps o c) : o ≠ x ∧ c ≠ x := by
-  rcases h with h | h
-  · exact ⟨(hx _ h).2, (hx _ h).1⟩
-  · exact ⟨(hx _ h).1, (hx _ h).2⟩
-
-/-- giving a fresh name the position of the body of the orbit keeps the potential consistent with the kernel and makes
-the attached frame admissible -/
+/-- giving a fresh name the position of the body of the orbit keeps the potential consistent with the kernel and
+satisfies the convention `AttPos` — whatever frame the orbit was expressed in when `as_frame` was called -/
 theorem attach_potential {ps : Pairs} {seg : Nat → Nat → V6} {P : Nat → V6} (hP : Consistent ps seg P)
-    {x o c : Nat} (hx : Fresh ps x) (hl : Linked ps o c) :
-    Consistent ps seg (Function.update P x (P o)) ∧ AttOK ps [⟨x, c, o, c⟩] (Function.update P x (P o)) := by
-  obtain ⟨hox, hcx⟩ := fresh_ne_of_linked hx hl
+    {x l o c : Nat} (hx : Fresh ps x) (hox : o ≠ x) :
+    Consistent ps seg (Function.update P x (P o)) ∧ AttPos [⟨x, l, o, c⟩] (Function.update P x (P o)) := by
   refine ⟨?_, ?_⟩
   · intro c' t' hm
     rw [Function.update_of_ne (hx _ hm).2, Function.update_of_ne (hx _ hm).1]
@@ -82,19 +79,49 @@ theorem attach_potential {ps : Pairs} {seg : Nat → Nat → V6} {P : Nat → V6
   · intro t ht
     simp only [List.mem_singleton] at ht
     subst ht
-    refine ⟨hl, ?_⟩
     simp only
-    rw [Function.update_self, Function.update_of_ne hcx, Function.update_of_ne hox]
+    rw [Function.update_self, Function.update_of_ne hox]
 
-/-- **`get_orbit(o).as_frame(x)` is centred on `o`** — for the orbit of a body as seen from either end of its segment
-(so from a centre that is not the Earth), every kernel without doubly-centred targets, every consistent set of segment
-values, every other body `b` and every fuel: a state vector `v0` given in the new frame comes out in the frame of `b`
-displaced by `o` relative to `b`, and the other way round by `b` relative to `o`. -/
+/-- any number of frames made from orbits: with fresh, pairwise distinct names that are not bodies of orbits, the
+potential extends (so `AttPos` in `spk_attached_frames` / `history_independent` is a naming convention, not a restriction) -/
+theorem attach_potential_all {ps : Pairs} {seg : Nat → Nat → V6} {P : Nat → V6} (hP : Consistent ps seg P)
+    (att : List Att) (hx : ∀ t ∈ att, Fresh ps t.x) (hd : (att.map (·.x)).Nodup)
+    (ho : ∀ t ∈ att, ∀ t' ∈ att, t.obj ≠ t'.x) :
+    ∃ P', Consistent ps seg P' ∧ AttPos att P' ∧ ∀ n, (∀ t ∈ att, t.x ≠ n) → P' n = P n := by
+  induction att with
+  | nil => exact ⟨P, hP, (fun t ht => by simp at ht), fun _ _ => rfl⟩
+  | cons t rest ih =>
+    have hd' : t.x ∉ rest.map (·.x) ∧ (rest.map (·.x)).Nodup := by
+      rw [List.map_cons] at hd; exact List.nodup_cons.mp hd
+    obtain ⟨P1, hP1, hA1, hsame⟩ := ih (fun u hu => hx u (List.mem_cons_of_mem _ hu)) hd'.2
+      (fun u hu u' hu' => ho u (List.mem_cons_of_mem _ hu) u' (List.mem_cons_of_mem _ hu'))
+    have htx : Fresh ps t.x := hx t List.mem_cons_self
+    refine ⟨Function.update P1 t.x (P1 t.obj), ?_, ?_, ?_⟩
+    · intro c' t' hm
+      rw [Function.update_of_ne (htx _ hm).2, Function.update_of_ne (htx _ hm).1]
+      exact hP1 c' t' hm
+    · intro u hu
+      rcases List.mem_cons.mp hu with rfl | hu'
+      · rw [Function.update_self, Function.update_of_ne (ho _ List.mem_cons_self _ List.mem_cons_self)]
+      · have hne : u.x ≠ t.x := by
+          intro he
+          exact hd'.1 (by rw [← he]; exact List.mem_map_of_mem hu')
+        rw [Function.update_of_ne hne, Function.update_of_ne (ho u hu t List.mem_cons_self)]
+        exact hA1 u hu'
+    · intro n hn
+      rw [Function.update_of_ne (fun he => hn t List.mem_cons_self he.symm)]
+      exact hsame n (fun u hu => hn u (List.mem_cons_of_mem _ hu))
+
+/-- **`orb.as_frame(x)` is centred on the body of `orb`** — for the orbit of body `o` that a propagator returned
+relative to `c` (either end of a segment: a centre that is not the Earth), made into a frame while expressed in the
+frame of ANY body `l` (re-framed in place or copied before, or not: `l = c`), every kernel without doubly-centred
+targets, every consistent set of segment values, every other body `b`, every fuel: a state vector `v0` given in the new
+frame comes out in the frame of `b` displaced by `o` relative to `b`, and the other way round by `b` relative to `o`. -/
 theorem spk_as_frame (ps : Pairs) (seg : Nat → Nat → V6) (P : Nat → V6) (hP : Consistent ps seg P)
-    (hu : UniqueCenter ps) (x o c : Nat) (hx : Fresh ps x) (hl : Linked ps o c) (fuel b : Nat) (hb : b ≠ x) (v0 v : V6) :
-    (reframeA fuel ps [⟨x, c, o, c⟩] seg x b v0 = .ok v → v = v0 + si (P o - P b)) ∧
-    (reframeA fuel ps [⟨x, c, o, c⟩] seg b x v0 = .ok v → v = v0 + si (P b - P o)) := by
-  obtain ⟨hP', hA⟩ := attach_potential hP hx hl
+    (hu : UniqueCenter ps) (x l o c : Nat) (hx : Fresh ps x) (hox : o ≠ x) (fuel b : Nat) (hb : b ≠ x) (v0 v : V6) :
+    (reframeA fuel ps [⟨x, l, o, c⟩] seg x b v0 = .ok v → v = v0 + si (P o - P b)) ∧
+    (reframeA fuel ps [⟨x, l, o, c⟩] seg b x v0 = .ok v → v = v0 + si (P b - P o)) := by
+  obtain ⟨hP', hA⟩ := attach_potential (l := l) (c := c) hP hx hox
   have hx' : Function.update P x (P o) x = P o := Function.update_self ..
   have hb' : Function.update P x (P o) b = P b := Function.update_of_ne hb ..
   refine ⟨fun h => ?_, fun h => ?_⟩
@@ -128,7 +155,7 @@ function of the kernel and of the segment values at the date of the request only
 state vector and `Center.convert_to` = a relative to b.  None of these requests changes the attached frames. -/
 theorem history_independent (ps : Pairs) (seg : Nat → Nat → Nat → V6) (P : Nat → Nat → V6)
     (hP : ∀ k, Consistent ps (seg k) (P k)) (hu : UniqueCenter ps) (fuel : Nat) (w w' : World)
-    (hA : ∀ k, AttOK ps w.att (P k)) (v : V6) :
+    (hA : ∀ k, AttPos w.att (P k)) (v : V6) :
     (∀ k a, step fuel ps seg w (.get k a) = some (w', .ok v) →
         ∃ c, (c, a) ∈ ps ∧ v = si (P k a - P k c) ∧ w'.att = w.att) ∧
     (∀ op, specOf P op ≠ none → step fuel ps seg w op = some (w', .ok v) →
@@ -167,6 +194,7 @@ theorem history_independent (ps : Pairs) (seg : Nat → Nat → Nat → V6) (P :
     | read i => simp [specOf] at hs
     | copyTo i b => simp [specOf] at hs
     | asFrame i x => simp [specOf] at hs
+    | asFrameEph i x => simp [specOf] at hs
 
 /-- **A read after an in-place write returns what a fresh object returns**: after `objs[i].frame = b` the object holds
 exactly the vector `objs[i].copy(frame=b)` would have returned, and is in frame `b`. -/
@@ -206,7 +234,7 @@ theorem inplace_is_copy (fuel : Nat) (ps : Pairs) (seg : Nat → Nat → Nat →
 to `b` — the vector chained along the segments from `b` to the body. -/
 theorem object_tracks_body (ps : Pairs) (seg : Nat → Nat → Nat → V6) (P : Nat → Nat → V6)
     (hP : ∀ k, Consistent ps (seg k) (P k)) (hu : UniqueCenter ps) (fuel : Nat) (w w1 : World)
-    (hA : ∀ k, AttOK ps w.att (P k)) (i b : Nat) (o : Obj) (ho : w.objs[i]? = some o)
+    (hA : ∀ k, AttPos w.att (P k)) (i b : Nat) (o : Obj) (ho : w.objs[i]? = some o)
     (hgood : o.vec = si (P o.date o.obj - P o.date o.frame)) (v : V6)
     (h : step fuel ps seg w (.setFrame i b) = some (w1, .ok v)) :
     v = si (P o.date o.obj - P o.date b) := by
@@ -237,7 +265,9 @@ example : Fresh [(0, 3), (3, 399), (3, 301)] 1000000 := by
   simp only [List.mem_cons, List.not_mem_nil, or_false] at hp
   rcases hp with rfl | rfl | rfl <;> decide
 
-example : Linked [(0, 3), (3, 399), (3, 301)] 301 3 := Or.inl (by decide)
+/-- a frame made from the Moon's orbit after the orbit was re-framed to the Sun-less kernel's body 399: still routed -/
+example : ∃ g, build 10 (linkHistA [(0, 3), (3, 399), (3, 301)] [⟨1000000, 399, 301, 3⟩]) = some g ∧
+    path 10 g 1000000 3 = .ok [1000000, 399, 3] := ⟨_, rfl, by decide⟩
 
 example : ∃ g, build 10 (linkHistA [(0, 3), (3, 399), (3, 301)] [⟨1000000, 3, 301, 3⟩]) = some g ∧
     path 10 g 1000000 399 = .ok [1000000, 3, 399] := ⟨_, rfl, by decide⟩
